@@ -12,7 +12,8 @@ RULE = ('reactions assembled from corpus / curated molecules: products derived f
         'edits (bond order change, bond formation / cleavage, charge and radical change, atoms present on one side only); 0-3 '
         'molecules per role incl. empty roles, multi-component salts, radicals; all role-internal orders; consistent '
         'renumbering of both sides; oracle: the recorded edit list is the ground truth for every dynamic bond / atom and for '
-        'center_atoms; string equalities for order-free identity; read-back compared role by role; compose() leaves the reaction and its molecules unchanged; non-trivial = reaction with '
+        'center_atoms; string equalities for order-free identity; read-back compared role by role; compose() leaves the reaction and its molecules unchanged; '
+        'generated reaction texts with a fragment-group block (adjacent and non-adjacent members) and radical marks read as the same atoms, role by role, as the text without the block; non-trivial = reaction with '
         '>= 1 recorded edit or >= 2 molecules in a role, distinct by reaction string')
 ASSUMPTIONS = ['CachedMethods compatibility shim', 'molecules inside one reaction carry disjoint atom numbers except mapped '
                'reactant/product pairs (as the reaction reader produces them)']
@@ -20,11 +21,12 @@ CONFIG = {
     'quick': {'shards': 16, 'budget_s': 300, 'n': 4000,
               'floors': {'evaluations': 8000, 'distinct_nontrivial': 1200, 'cgr.compared': 1400, 'cgr.dynamic-bonds-checked': 1500,
                          'cgr.identical-sides': 150, 'order.permutations': 1500, 'readback.compared': 1400, 'readback.empty-role': 100,
-                         'cgr.renumbered': 1200}},
+                         'cgr.renumbered': 1200, 'grouped-texts.compared': 600, 'grouped-texts.non-adjacent-members': 150, 'grouped-texts.with-radicals': 300}},
     'thorough': {'shards': 16, 'budget_s': 1500, 'n': 150000,
                  'floors': {'evaluations': 200000, 'distinct_nontrivial': 20000, 'cgr.compared': 35000,
                             'cgr.dynamic-bonds-checked': 40000, 'cgr.identical-sides': 3000, 'order.permutations': 40000,
-                            'readback.compared': 35000, 'readback.empty-role': 2500, 'cgr.renumbered': 30000}},
+                            'readback.compared': 35000, 'readback.empty-role': 2500, 'cgr.renumbered': 30000,
+                            'grouped-texts.compared': 20000, 'grouped-texts.non-adjacent-members': 5000, 'grouped-texts.with-radicals': 10000}},
 }
 
 
@@ -309,6 +311,74 @@ def renumbered_cgr(ctx, r, p, cgr, src, rng):
         ctx.violation('center-atoms-depend-on-numbering', src, {'src': src})
 
 
+FRAGMENTS = ['CO', '[Na+]', 'C', '[Cl-]', 'CC', '[K+]', 'O', '[Br-]', 'c1ccccc1', '[OH-]', 'CC(=O)[O-]', '[NH4+]', 'CN', 'OO', 'C=C', '[Li+]']
+
+
+def grouped_texts(ctx, rng, n):
+    """reaction SMILES with a fragment-group block (members adjacent or not) and radical marks: grouping only decides which written
+    pieces form one molecule - every role must hold the same atoms with the same radical marks as the text read without the block,
+    and one molecule less per joined piece"""
+    from functools import reduce
+    from operator import or_
+    for _ in range(n):
+        sizes = [rng.randrange(1, 6), rng.randrange(0, 4), rng.randrange(1, 3)]
+        pieces = [[rng.choice(FRAGMENTS) for _ in range(k)] for k in sizes]
+        flat = [x for role in pieces for x in role]
+        groups, used, start = [], set(), 0
+        for role in pieces:
+            idx = list(range(start, start + len(role)))
+            start += len(role)
+            free = [i for i in idx if i not in used]
+            if len(free) >= 2 and rng.random() < .7:
+                g = sorted(rng.sample(free, rng.choice((2, 2, 3)) if len(free) >= 3 else 2))
+                groups.append(g)
+                used.update(g)
+        if not groups:
+            continue
+        # radical marks: atom indices in written order, on neutral carbon / oxygen atoms with a hydrogen to lose
+        try:
+            mols = [smiles(x) for x in flat]
+        except Exception:
+            continue
+        cand, k = [], 0
+        for m in mols:
+            for n_, a in m.atoms():
+                if a.atomic_number in (6, 8) and not a.charge and (a.implicit_hydrogens or 0) > 0 and a.hybridization != 4:
+                    cand.append(k)
+                k += 1
+        rad = sorted(rng.sample(cand, min(len(cand), rng.choice((0, 1, 1, 2)))))
+        body = '>'.join('.'.join(role) for role in pieces)
+        blocks_plain = ['^1:' + ','.join(map(str, rad))] if rad else []
+        blocks = ['f:' + ','.join('.'.join(map(str, g)) for g in groups)] + blocks_plain
+        if rng.random() < .5:
+            blocks.reverse()
+        text = '%s |%s|' % (body, ','.join(blocks))
+        plain = body + (' |%s|' % ','.join(blocks_plain) if blocks_plain else '')
+        w = {'smiles': text}
+        try:
+            a, b = smiles(text), smiles(plain)
+        except Exception as e:
+            ctx.violation('grouped-text-not-readable/%s' % type(e).__name__, '%s: %r' % (text, e), w)
+            continue
+        ctx.evaluations += 1
+        ctx.count('grouped-texts.compared')
+        if any(g != list(range(g[0], g[0] + len(g))) for g in groups):
+            ctx.count('grouped-texts.non-adjacent-members')
+        if rad:
+            ctx.count('grouped-texts.with-radicals')
+        joined = sum(len(g) - 1 for g in groups)
+        ra, rb = (a.reactants, a.reagents, a.products), (b.reactants, b.reagents, b.products)
+        if sum(map(len, ra)) != sum(map(len, rb)) - joined:
+            ctx.violation('grouped-text-molecule-count-differs', '%s: %d molecules, %d pieces, %d joined' % (text, sum(map(len, ra)), len(flat), joined), w)
+            continue
+        for name, x, y in zip(('reactants', 'reagents', 'products'), ra, rb):
+            ux = str(reduce(or_, x)) if x else ''
+            uy = str(reduce(or_, y)) if y else ''
+            if ux != uy:
+                ctx.violation('grouped-text-%s-differ' % name, '%s: %s as a whole %s, without the group block %s' % (text, name, ux, uy), w)
+                break
+
+
 def worker(ctx):
     cfg = CONFIG[ctx.tier]
     rng = ctx.rng
@@ -319,6 +389,7 @@ def worker(ctx):
     _random.Random(ctx.seed + 5).shuffle(ids)
     small = [s for s, _ in G.special()]
     n = cfg['n'] // ctx.nshards
+    grouped_texts(ctx, rng, max(60, n // 4))
     for i in range(n):
         if ctx.out_of_time():
             ctx.note('time budget reached')
